@@ -73,6 +73,9 @@ def sim_trace(kind, script):
     class _S:
         case = {}
         workers = []
+        flaky = frozenset()
+        linger = False
+        flags = set()
         def log(self, *a): pass
         def note_handed(self, *a): pass
         def note_failed_handing(self, *a): pass
